@@ -28,7 +28,7 @@ theorem wp_prepare_nil {Q : Unit → Conn → Prop} {E : Exc → Conn → Prop} 
 theorem wp_prepare {Q : Unit → Conn → Prop} {E : Exc → Conn → Prop} (frames : List Frame) (c : Conn) (bs : List Bytes)
     (hser : frames.mapM Frame.serialize? = some bs)
     (hlen : (frames.all fun f => decide ((f.bodyLen : Int) ≤ c.maxOutFrame)) = true)
-    (hq : Q () { c with out := c.out ++ bs.foldl (· ++ ·) [] }) :
+    (hq : Q () { c with out := c.out ++ bs.foldl (· ++ ·) [], sent := c.sent ++ frames }) :
     wp (prepareForSending frames) Q E c := by
   unfold prepareForSending
   split
@@ -49,7 +49,7 @@ theorem wp_prepare_eq {Q : Unit → Conn → Prop} {E : Exc → Conn → Prop} (
     (hne : frames ≠ [])
     (hser : frames.mapM Frame.serialize? = some bs)
     (hlen : (frames.all fun f => decide ((f.bodyLen : Int) ≤ c.maxOutFrame)) = true) :
-    wp (prepareForSending frames) Q E c = Q () { c with out := c.out ++ bs.foldl (· ++ ·) [] } := by
+    wp (prepareForSending frames) Q E c = Q () { c with out := c.out ++ bs.foldl (· ++ ·) [], sent := c.sent ++ frames } := by
   unfold prepareForSending
   have : frames.isEmpty = false := by cases frames <;> simp_all
   simp only [this, Bool.false_eq_true, if_false, hser]
